@@ -388,7 +388,7 @@ func parseConditionParams(parameterMap map[string]*openfgav1.ConditionParamTypeR
 		parameterType := parameterMap[parameterName]
 		parameterTypeString := strings.ToLower(strings.ReplaceAll(parameterType.GetTypeName().String(), "TYPE_NAME_", ""))
 
-		if parameterTypeString == "list" || parameterTypeString == "map" {
+		if (parameterTypeString == "list" || parameterTypeString == "map") && len(parameterType.GetGenericTypes()) > 0 {
 			genericTypeString := strings.ToLower(
 				strings.ReplaceAll(
 					parameterType.GetGenericTypes()[0].GetTypeName().String(), "TYPE_NAME_", ""),
